@@ -338,6 +338,41 @@ def check_silent_skip(ctx):
         ctx.check(reported or filler or before, "T2-log-silent-drop-guards", "bad@%s" % e["l"].split(":")[1], r.name, site(r, e),
                   "unreported drop only for zero-length filler or data before the initial offset",
                   "a physical record can be dropped without a report; facts %s" % fmt_atoms(atoms))
+    # after a CRC mismatch the length field itself is untrusted: the WHOLE buffered block is discarded before the
+    # bad-record return (never just header+length bytes), or parsing would resume inside the damaged payload
+    def whole(v):
+        if v == "lr->buffer.size":
+            return True
+        defs = [key(x.get("init")) for bb, ii, x in r.events("decl") if x["n"] == v] + \
+               [key(x["rhs"]) for bb, ii, x in r.events("asg") if key(x["lhs"]) == v]
+        return bool(defs) and all(d == "lr->buffer.size" for d in defs)
+
+    def clears(ev):
+        if is_call(ev, "ldb_slice_reset") and argkey(ev, 0) == "&lr->buffer":
+            return True
+        return is_call(ev, "ldb_slice_eat") and argkey(ev, 0) == "&lr->buffer" and whole(argkey(ev, 1))
+    ncrc = 0
+    for b, i, e in r.events("ret"):
+        if const_val(e.get("x")) != BADREC or not holds(g.must_at(b, 0), ("!=", "actual", "expect")):
+            continue
+        ncrc += 1
+        line = e["l"]
+
+        def step2(q, ev, st, bb, ii, line=line):
+            from ..rules import BAD
+            if q == BAD:
+                return q
+            if clears(ev):
+                return 1
+            if is_call(ev, "ldb_rfile_read"):
+                return 0
+            if ev["e"] == "ret" and ev.get("l") == line and q == 0:
+                return BAD
+            return q
+        from ..rules import check_automaton
+        check_automaton(ctx, "T2-crc-mismatch-drops-block", "clear<return@%s" % line.split(":")[1], r, 0, step2, None,
+                        "a checksum mismatch discards the whole buffered block before LDB_BAD_RECORD (the length field is untrusted)")
+    ctx.require(ncrc >= 1, "read_physical_record: checksum-mismatch return not found")
     # BAD_RECORD is what the zero-length / bad-length / bad-CRC / pre-offset branches return
     rets = [const_val(e.get("x")) for b, i, e in r.events("ret")]
     ctx.check(rets.count(BADREC) >= 4, "T1-log-no-silent-skip", "bad-record-returns", r.name, r.loc,
